@@ -795,6 +795,19 @@ func trySliceFetcher(w *W, r *rand.Rand, prop int) {
 		for i := m; i < len(order); i++ {
 			eval.GetOrRegisterKey(derived, order[i])
 		}
+		// the premise, read off the slice itself (which keys later registrations get is the library's own choice): every
+		// variable registered afterwards lies outside the slice, so a truthful fetcher reports it as not cached
+		premise := true
+		sl, _ := ctx.VariableFetcher.(eval.SliceVarFetcher)
+		for i := m; i < len(order); i++ {
+			if k := int(derived.VariableKeyMap[order[i]]); k >= 0 && k < len(sl) {
+				premise = false // a slot of the slice (possibly an unused one): the fetcher cannot tell it from a bound variable
+			}
+		}
+		if !premise {
+			w.Inc("slice_fetcher_later_key_inside_range_skipped")
+			continue
+		}
 		e, co := compileGuard(derived, src)
 		if co.Err != nil || co.Panic != nil {
 			w.Fail("compile-rejects-wellformed", "Compile failed: %v %v\nsource: %s", co.Err, co.Panic, src)
